@@ -639,7 +639,9 @@ func c16Abstract(b *c16Base, s c16Scn) string {
 			pre = b.nDirs + b.nLinks
 		}
 	case "parent-asfile":
-		pre, preErr = 1, b.nDirs > 0 // the directory itself is a wound, the first entry below it is ENOTDIR
+		// the directory itself is a wound; since the C06 repairs (ENOTDIR is "missing", a wounded
+		// directory hides what is below it) the entries below it are wounds too, not an early return
+		pre, preErr = 1, false
 		if b.nDirs == 0 {
 			pre = 0
 		}
